@@ -160,6 +160,18 @@ def to_coq(e):
         ps = clist(e[1], lambda pd: f"({ctarget(pd[0])}, {copt(pd[1], c)})")
         var = "None" if e[2] is None else f"(Some {e[2]}%N)"
         return f"(EFn {ps} {var} {copt(e[3], chint)} {c(e[4])})"
+    if k == "genfn":
+        ps = clist(e[1], lambda pd: f"({ctarget(pd[0])}, {copt(pd[1], c)})")
+        var = "None" if e[2] is None else f"(Some {e[2]}%N)"
+        return f"(EGenFn {ps} {var} {c(e[3])})"
+    if k == "yield":
+        return f"(EYield {c(e[1])})"
+    if k == "next":
+        return f"(ENext {c(e[1])})"
+    if k == "totuple":
+        return f"(EToTuple {c(e[1])})"
+    if k == "tolist":
+        return f"(EToList {c(e[1])})"
     if k == "call":
         return f"(ECall {c(e[1])} {clist(e[2], c)})"
     if k == "pipe":
@@ -272,6 +284,10 @@ def is_blocky(e):
         return any(is_blocky(b) for _, b in e[1]) or (e[2] is not None and is_blocky(e[2])) or len(e[1]) > 1
     if k == "fn":
         return is_blocky(e[4])
+    if k == "genfn":
+        return True
+    if k == "yield":
+        return is_blocky(e[1])
     if k in ("assign",):
         return is_blocky(e[3])
     if k in ("opassign", "multi"):
@@ -384,6 +400,15 @@ class Printer:
         if k == "fn":
             s = self.fn_header(e) + " " + x(self.single(e[4]))
             return f"({s})"
+        if k == "yield":
+            s = f"yield {x(e[1])}"
+            return f"({s})" if prec > 0 else s
+        if k == "next":
+            return f"{x(e[1], 10)}.next()?.get()"
+        if k == "totuple":
+            return f"{x(e[1], 10)}.to_tuple()"
+        if k == "tolist":
+            return f"{x(e[1], 10)}.to_list()"
         if k == "call":
             return f"{x(e[1], 10)}(" + ", ".join(x(a) for a in e[2]) + ")"
         if k == "pipe":
@@ -493,6 +518,8 @@ class Printer:
                 + self.body(e[3], ind + 1)
         if k == "fn":
             return [pad + prefix + self.fn_header(e)] + self.body(e[4], ind + 1)
+        if k == "genfn":
+            return [pad + prefix + self.fn_header(("fn", e[1], e[2], None, e[3]))] + self.body(e[3], ind + 1)
         if k == "match":
             out = [pad + prefix + "match " + ", ".join(self.ex(s) for s in e[1])]
             for alts, guard, b in e[2]:
@@ -1010,10 +1037,58 @@ class FnGen(Gen):
                               ("assign", r1, None, ("tuple", [("call", ("id", g), [("int", 1)]), ("call", ("id", g), [("int", 2)])]))])
         return self.stmt(d)
 
+    def gen_stmt(self):
+        """a generator function whose body has no effect other than its yields, and a consumer"""
+        g, n, i, acc, it, r1, r2, r3 = [self.fresh("any") for _ in range(8)]
+        shape = self.r.below(5)
+        k = 1 + self.r.below(4)
+        if shape == 0:
+            body = [("for", [("tid", i, None)], ("range", ("int", 0), ("id", n), False),
+                     ("block", [("yield", ("bin", "*", ("id", i), ("int", 2)))])), ("yield", ("int", 100))]
+        elif shape == 1:
+            body = [("assign", acc, None, ("int", 1)),
+                    ("while", ("cmp", ("id", acc), [("<", ("bin", "+", ("id", n), ("int", 3)))]),
+                     ("block", [("yield", ("id", acc)), ("opassign", "*", acc, ("int", 2))]))]
+        elif shape == 2:
+            body = [("yield", ("id", n)), ("if", [(("cmp", ("id", n), [(">", ("int", 1))]), ("block", [("yield", ("int", -1)), ("return", None)]))], None),
+                    ("yield", ("tuple", [("id", n), ("int", 7)]))]
+        elif shape == 3:
+            body = [("assign", acc, None, ("int", 0)),
+                    ("for", [("tid", i, None)], ("list", [("int", 3), ("int", 1), ("int", 4)]),
+                     ("block", [("opassign", "+", acc, ("id", i)), ("if", [(("cmp", ("id", i), [("!=", ("id", n))]), ("block", [("yield", ("id", acc))]))], None)]))]
+        else:
+            body = [("yield", ("str", "a")), ("yield", ("null",)), ("yield", ("id", n))]
+        gen = ("genfn", [(("tid", n, None), None if self.chance(2, 3) else ("int", 2))], None, ("block", body))
+        arg = [("int", k)] if gen[1][0][1] is None or self.chance(1, 2) else []
+        make = ("call", ("id", g), arg)
+        use = self.r.below(5)
+        if use == 0:
+            cons = [("assign", r1, None, ("totuple", make))]
+        elif use == 1:
+            cons = [("assign", it, None, make), ("assign", r1, None, ("tuple", [("next", ("id", it)), ("next", ("id", it))])),
+                    ("assign", r2, None, ("totuple", ("id", it))), ("assign", r3, None, ("next", ("id", it)))]
+        elif use == 2:
+            x = self.fresh("any")
+            cons = [("assign", it, None, make), ("assign", r1, None, ("list", [])),
+                    ("for", [("tid", x, None)], ("id", it), ("block", [("push", ("id", r1), ("id", x)),
+                        ("if", [(("cmp", ("size", ("id", r1)), [(">=", ("int", 2))]), ("block", [("break", None)]))], None)])),
+                    ("assign", r2, None, ("tolist", ("id", it)))]
+        elif use == 3:
+            cons = [("assign", r1, None, ("tuple", [("totuple", make), ("totuple", make)]))]
+        else:
+            x = self.fresh("any")
+            cons = [("assign", r1, None, ("int", 0)),
+                    ("for", [("tid", x, None)], make, ("block", [("opassign", "+", r1, ("int", 1))]))]
+        for st in cons:
+            if st[0] == "assign" and st[1] in (r1, r2, r3):
+                self.declare(st[1], "any")
+        return ("block", [("assign", g, None, gen)] + cons)
+
     def program(self, size, depth):
         stmts = []
         for _ in range(size):
-            stmts.append(self.fn_stmt(depth) if self.chance(3, 4) else self.stmt(depth))
+            c = self.r.below(8)
+            stmts.append(self.gen_stmt() if c == 0 else (self.fn_stmt(depth) if c < 7 else self.stmt(depth)))
         obs = [("id", v) for kind in ("int", "bool", "str", "tuple", "list", "any") for v in self.vars[kind]]
         stmts.append(("tuple", obs[:24] + [("null",)]))
         return ("block", stmts)
